@@ -8,9 +8,9 @@ satisfiable by a concrete (toy, symbolic) instance, so no theorem below is vacuo
 
 | clause of the statement | theorem(s) on the model | rest |
 |---|---|---|
-| a read returns the plaintext of a version a write-cap holder published, or an error, never other bytes | `accepted_version_published` (one share: prefix + blocks are a published version's), `installed_key_genuine`, `signed_root_never_reset`, `accepted_blocks_hash_to_signed_root`, `retrieve_validates_only_published_blocks` (a whole Retrieve, any sequence of rejected shares); `reset_variant_counterexample` shows the invariant is load-bearing | `decrypt_salt_is_signed` (the IV/salt handed to the decryptor is the signed one; `fresh_reader_counterexample` = seed C10-e); decoding k validated block sets to the plaintext is C36/C09; the servermap's per-update signature cache (`_valid_versions`, keyed on the whole verinfo) is **monitor only** (prefix-alteration family) |
+| a read returns the plaintext of a version a write-cap holder published, or an error, never other bytes | `accepted_version_published` (one share: prefix + blocks are a published version's), `installed_key_genuine`, `signed_root_never_reset`, `accepted_blocks_hash_to_signed_root`, `retrieve_validates_only_published_blocks` (a whole Retrieve, any sequence of rejected shares); `reset_variant_counterexample` shows the invariant is load-bearing | `decrypt_salt_is_signed` (the IV/salt handed to the decryptor is the signed one; `fresh_reader_counterexample` = seed C10-e); decoding k validated block sets to the plaintext is C36/C09; the servermap's per-update signature cache: `map_update_enters_only_verified_prefixes` (`coarse_cache_key_counterexample` = seed C10-a) |
 | … for any tampering: flipped bytes, forged signatures or keys, mixed versions, another file's shares | same theorems (the adversary supplies every field of every share; `World.unforgeable`, `fp_inj`, `chain_sound`, `bht_inj` are the hypotheses); `fieldDecision_table` for single-field alterations | which bytes of the two hash-chain fields a read consults: **correspondence/monitor only** |
-| if at least k intact shares of the newest published version are reachable, the read succeeds | `intact_share_accepted` (an intact share is accepted); `retrieve_succeeds_with_k_intact_partial` (the Retrieve loop ends with k good shares — guard: only the bad share is dropped, or one share per server); `readOnce_succeeds_partial` (one read, given `best` = that version). `drop_server_counterexample` = the code before /repo 280b4a6 (repaired; the harness compares the real loop with the `dropSrv = false` variant now); **still not true of the code as it is**: `offset_table_counterexample` (open finding, reproduced by the monitor) | that `best_recoverable_version` is the newest published version, the partial first survey (MODE_READ) and its retry: **correspondence only** (`vm`, `rd` driver ops); one share has one identity whichever proxy surveyed it: `canonical_offsets_same_identity` (`insertion_order_offsets_counterexample` = the code before 80fa722) |
+| if at least k intact shares of the newest published version are reachable, the read succeeds | `intact_share_accepted` (an intact share is accepted); `retrieve_succeeds_with_k_intact_partial` (the Retrieve loop ends with k good shares — guard: only the bad share is dropped, or one share per server); `readOnce_succeeds_partial` (one read, given `best` = that version). `drop_server_counterexample` = the code before /repo 280b4a6 (repaired; the harness compares the real loop with the `dropSrv = false` variant now); **still not true of the code as it is**: `offset_table_counterexample` (open finding, reproduced by the monitor) | `best_is_maximal_recoverable` (`best` = the largest recoverable verinfo) and `read_succeeds_with_k_intact_newest_partial` (first survey + one retry on the complete map) -- guard: no recoverable verinfo sorts above the newest published version's, which the open offset-table finding breaks; which servers the partial MODE_READ survey asks: **correspondence only** (`rd`); one share has one identity whichever proxy surveyed it: `canonical_offsets_same_identity` (`insertion_order_offsets_counterexample` = the code before 80fa722) |
 | holders of only a read-cap or verify-cap, and storage servers, cannot create a version that readers accept | `readcap_cannot_publish` (Dolev–Yao closure: no signature on an unpublished prefix, nor the signing or write key, is derivable) with `accepted_version_published` | computational soundness of RSA/SHA-256d: assumed |
 | SDMF and MDMF | the model is format-independent (salt inside the prefix for SDMF, hashed with the blocks for MDMF: `Prims.bhtRoot`) | both formats in every harness family |
 -/
@@ -166,6 +166,34 @@ example : (Toy.run (some 0) [.offer 0 1, .damaged 1 0 7, .offer 2 0, .offer 3 1,
     = [false, false, true, false, false, true] := by decide
 example : (Toy.run (some 0) [.offer 0 1, .damaged 1 0 7, .offer 2 0, .offer 3 1]).2.tree = some (.fam 0) := by decide
 
+/-! ### the map update's signature cache -/
+
+/-- **every share entered into the servermap carries a verified prefix**: whatever shares the servers
+send in whatever order, with the cache keyed on the whole verinfo (the code), every verinfo the map
+update enters belongs to a prefix for which a signature verified under the file's key -- also when the
+RSA check was skipped because of a cache hit.  (With `World.unforgeable` that prefix is a published
+version's; Retrieve then trusts exactly this prefix.) -/
+theorem map_update_enters_only_verified_prefixes {S : Type} [DecidableEq H] (verify : Prefix H → S → Bool)
+    (xs : List (SigIn H S)) (p : Prefix H) (o : Nat) (h : (p, o) ∈ (mapUpdate verify fullKey xs).entered) :
+    ∃ s, verify p s = true := by
+  have hinv := sigInv_foldl verify fullKey (by intro p o p' o' hk; exact (Prod.mk.inj hk).1) xs
+    { valid := [], entered := [] } ⟨by intro kk hkk; simp at hkk, by intro p o hpo; simp at hpo⟩
+  exact hinv.2 p o h
+
+/-- the key matters (seed C10-a): keyed on (seqnum, root hash, salt) only, one genuine share primes the
+cache and a share with another datalength and a worthless signature is entered as a version of its own;
+keyed on the whole verinfo it is rejected. -/
+theorem coarse_cache_key_counterexample :
+    let pre : Prefix Nat := { seqnum := 2, root := 9, salt := 7, k := 2, n := 4, segsize := 10, datalen := 10 }
+    let forged : Prefix Nat := { pre with datalen := 9 }
+    let xs : List (SigIn Nat Bool) := [⟨pre, 0, true⟩, ⟨forged, 0, false⟩]
+    (mapUpdate (fun _ s => s) coarseKey xs).entered = [(forged, 0), (pre, 0)] ∧
+    (mapUpdate (fun _ s => s) fullKey xs).entered = [(pre, 0)] := by decide
+
+example : (mapUpdate (fun (_ : Prefix Nat) (s : Bool) => s) fullKey
+    [⟨{ seqnum := 2, root := 9, salt := 7, k := 2, n := 4, segsize := 10, datalen := 10 }, 0, true⟩,
+     ⟨{ seqnum := 2, root := 9, salt := 7, k := 2, n := 4, segsize := 10, datalen := 10 }, 0, false⟩]).entered.length = 2 := by decide
+
 /-! ### the salt used for decryption is the signed one -/
 
 /-- **decryption uses the IV of the signed prefix**: in a Retrieve for the version with signed prefix
@@ -246,6 +274,48 @@ theorem readOnce_succeeds_partial (dropSrv : Bool) (k : Nat) (m : List MShare) (
   simp [readOnce, hb, hu]
 
 example : readOnce true 1 [⟨0, 0, 3, 7, 1, 0, true⟩, ⟨1, 1, 2, 5, 1, 0, true⟩] = some (3, 7, 1, 0) := by decide
+
+/-- **`best_recoverable_version` is the largest recoverable verinfo**: if `v` is carried by some share
+of the map, is recoverable, and no recoverable verinfo of the map sorts above it, then `best` returns
+`v` -- whatever else is in the map, in whatever order. -/
+theorem best_is_maximal_recoverable (k : Nat) (m : List MShare) (v : VerInfo)
+    (hmem : ∃ s, s ∈ m ∧ s.verinfo = v) (hrec : recoverable k m v = true)
+    (hmax : ∀ s, s ∈ m → recoverable k m s.verinfo = true → vlt v s.verinfo = false) :
+    best k m = some v := by
+  rw [best_eq_foldl]
+  exact bestStep_finds_max (recoverable k m) v hrec m hmem hmax none (Or.inl rfl)
+
+example : best 2 [⟨0, 0, 3, 7, 1, 0, true⟩, ⟨1, 1, 3, 7, 1, 0, false⟩, ⟨0, 2, 2, 5, 1, 0, true⟩, ⟨2, 3, 4, 1, 1, 0, true⟩]
+    = some (3, 7, 1, 0) := by decide
+
+/-- **k intact shares of the newest version ⇒ `download_best_version` succeeds** (partial).  `v` = the
+verinfo of the newest published version; the complete map `full` holds k good shares of it on distinct
+share numbers, and no recoverable verinfo of `full` sorts above `v`; the first (partial) survey found
+some recoverable version (otherwise the code raises UnrecoverableFileError without a second survey).
+Then the read returns a version: the first survey's best if its Retrieve succeeds, else `v` from the
+complete map.  Guards: bad-share handling drops only the share (the code since 280b4a6) or one share
+per server; and the maximality of `v` -- which an offset-altered share of the same version breaks
+(`offset_table_counterexample`, the open finding). -/
+theorem read_succeeds_with_k_intact_newest_partial (dropSrv : Bool) (k : Nat) (first full : List MShare) (v : VerInfo)
+    (hfirst : best k first ≠ none)
+    (hmem : ∃ s, s ∈ full ∧ s.verinfo = v) (hrec : recoverable k full v = true)
+    (hmax : ∀ s, s ∈ full → recoverable k full s.verinfo = true → vlt v s.verinfo = false)
+    (hn : ((sharesOf full v).map (·.shnum)).Nodup) (hk : k ≤ ((sharesOf full v).filter (·.good)).length)
+    (guard : dropSrv = false ∨ ((sharesOf full v).map (·.server)).Nodup) :
+    ∃ w, read dropSrv k first full = some w := by
+  have hfull := readOnce_succeeds_partial dropSrv k full v (best_is_maximal_recoverable k full v hmem hrec hmax) hn hk guard
+  unfold RetrSel.read
+  cases hb : best k first with
+  | none => exact absurd hb hfirst
+  | some b =>
+    simp only
+    cases hr : readOnce dropSrv k first with
+    | some w => exact ⟨w, rfl⟩
+    | none => exact ⟨v, hfull⟩
+
+/-- first survey sees only two damaged shares of the newest version; the complete map has two good ones further out -/
+example : read false 2 [⟨0, 0, 3, 7, 1, 0, false⟩, ⟨1, 1, 3, 7, 1, 0, false⟩]
+    [⟨0, 0, 3, 7, 1, 0, false⟩, ⟨1, 1, 3, 7, 1, 0, false⟩, ⟨2, 2, 3, 7, 1, 0, true⟩, ⟨3, 3, 3, 7, 1, 0, true⟩] = some (3, 7, 1, 0) := by decide
 
 /-- the open finding, on the model of the code as it is: a 1-of-2 file, share 0 intact, share 1 with an
 altered (unsigned) offsets table that sorts higher and does not read.  The altered share is a
